@@ -507,32 +507,6 @@ fn through_link(root: &Path, p: &Path) -> bool {
     false
 }
 
-/// The server's directories sit `NEST` levels below the temporary directory and a job root five levels below
-/// them: a link target is only admitted when it cannot lead out of the temporary directory (relative, at most
-/// twelve `..`, all of them leading).  Protects the machine the check runs on from the defects it looks for.
-fn safe_link_target(t: &[u8]) -> bool {
-    let p = path_of(t);
-    if p.has_root() {
-        // absolute targets: only names of the stand-in toolchain, which do not exist on the machine itself
-        return p.starts_with("/tc_bin") || p.starts_with("/tc_lib");
-    }
-    let mut ups = 0;
-    let mut seen_name = false;
-    for c in p.components() {
-        match c {
-            Component::ParentDir => {
-                if seen_name {
-                    return false;
-                }
-                ups += 1;
-            }
-            Component::Normal(_) => seen_name = true,
-            _ => {}
-        }
-    }
-    ups <= 12
-}
-
 /// `sccache-dist __verif_paths fakejob <target> <cwd> <exe> <args...>`: what the fake bwrap script runs
 /// in place of the sandboxed compiler.  args: `snap:<hex file>`, `w:<hex path>:<hex content>`,
 /// `l:<hex path>:<hex link target>`; paths are interpreted inside the job's root (`..` cannot leave it).
@@ -695,6 +669,7 @@ impl World {
         if Path::new(ABS_ESCAPE).exists() {
             out.push(Sx::L(vec![Sx::sym("created"), Sx::B(ABS_ESCAPE.as_bytes().to_vec())]));
         }
+        out.extend(root_writes());
         out
     }
 
@@ -830,18 +805,62 @@ impl Drop for World {
 
 /// case = `( (job ...) ... )`: a sequence of jobs on one fresh server
 fn fs_case(case: &Sx) -> Sx {
-    for job in case.list() {
-        for m in job.arg(6).list().iter().chain(job.arg(7).list()) {
-            if matches!(m.tag().as_str(), "symlink" | "hardlink") && !safe_link_target(m.arg(2).bytes()) {
-                return Sx::L(vec![Sx::sym("unsafe_case")]);
-            }
-        }
-    }
     let mut w = match World::new() {
         Ok(w) => w,
         Err(e) => return Sx::L(vec![Sx::sym("env_unsupported"), Sx::B(e.into_bytes())]),
     };
     Sx::L(case.list().iter().map(|op| w.job(op)).collect())
+}
+
+/// The fs legs run the real server as root with strings chosen to make it misbehave.  So that a defect (present
+/// or future) cannot damage the machine the check runs on, and so that ANY write outside the scratch directory
+/// is seen, the process first moves into a private mount namespace in which `/dev/shm` is a fresh tmpfs and the
+/// root directory is an overlay (lower layer: the real `/`, upper layer: a directory in that tmpfs): whatever
+/// gets written below `/` lands in the upper directory, which `root_writes` lists, and disappears with the process.
+const UPPER: &str = "/dev/shm/c19-root/up";
+
+fn contain() -> Result<(), String> {
+    use nix::mount::{mount, MsFlags};
+    let e = |what: &str, err: String| format!("{}: {}", what, err);
+    let none: Option<&str> = None;
+    nix::sched::unshare(nix::sched::CloneFlags::CLONE_NEWNS).map_err(|x| e("unshare", x.to_string()))?;
+    mount(none, "/", none, MsFlags::MS_REC | MsFlags::MS_PRIVATE, none).map_err(|x| e("private /", x.to_string()))?;
+    mount(Some("tmpfs"), "/dev/shm", Some("tmpfs"), MsFlags::empty(), none).map_err(|x| e("tmpfs", x.to_string()))?;
+    for d in ["up", "work", "merged"] {
+        std::fs::create_dir_all(format!("/dev/shm/c19-root/{}", d)).map_err(|x| e("mkdir", x.to_string()))?;
+    }
+    let merged = "/dev/shm/c19-root/merged";
+    mount(
+        Some("overlay"),
+        merged,
+        Some("overlay"),
+        MsFlags::empty(),
+        Some("lowerdir=/,upperdir=/dev/shm/c19-root/up,workdir=/dev/shm/c19-root/work"),
+    )
+    .map_err(|x| e("overlay /", x.to_string()))?;
+    for d in ["/dev", "/proc"] {
+        mount(Some(d), format!("{}{}", merged, d).as_str(), none, MsFlags::MS_BIND | MsFlags::MS_REC, none)
+            .map_err(|x| e("bind", x.to_string()))?;
+    }
+    std::os::unix::fs::chroot(merged).map_err(|x| e("chroot", x.to_string()))?;
+    std::env::set_current_dir("/").map_err(|x| e("chdir", x.to_string()))?;
+    Ok(())
+}
+
+/// everything written below `/` (outside /dev and /proc) since `contain`, reported once
+fn root_writes() -> Vec<Sx> {
+    static SEEN: std::sync::Mutex<std::collections::BTreeSet<Vec<u8>>> =
+        std::sync::Mutex::new(std::collections::BTreeSet::new());
+    let mut seen = SEEN.lock().unwrap();
+    walk(Path::new(UPPER))
+        .into_iter()
+        .filter(|(k, _)| seen.insert(k.clone()))
+        .map(|(k, (kind, _))| {
+            let mut p = b"/".to_vec();
+            p.extend_from_slice(&k);
+            Sx::L(vec![Sx::sym(if kind == 'f' || kind == 'l' { "wrote" } else { "created" }), Sx::B(p)])
+        })
+        .collect()
 }
 
 // ------------------------------------------------------------------ entry
@@ -852,6 +871,7 @@ pub fn main(args: &[String]) -> i32 {
         return fakejob(&args[1..]);
     }
     std::panic::set_hook(Box::new(|_| {}));
+    let contained = if leg == "probe" || leg == "fs" { contain() } else { Ok(()) };
     if leg == "digest" {
         // the id of the toolchain archive used by the fs leg, as the real code computes it
         println!("{}", sccache::util::Digest::reader_sync(&toolchain_blob()[..]).unwrap());
@@ -861,7 +881,10 @@ pub fn main(args: &[String]) -> i32 {
         // can the overlay builder run here at all (root, mount namespaces, overlayfs)?
         let id = sccache::util::Digest::reader_sync(&toolchain_blob()[..]).unwrap();
         let case = Sx::parse(&format!("((job #{} 1 1 #2f62 () () ()))", hex(id.as_bytes()))).unwrap();
-        println!("{}", fs_case(&case));
+        match contained {
+            Ok(()) => println!("{}", fs_case(&case)),
+            Err(e) => println!("{}", Sx::L(vec![Sx::sym("env_unsupported"), Sx::B(e.into_bytes())])),
+        }
         return 0;
     }
     let stdin = std::io::stdin();
@@ -877,7 +900,10 @@ pub fn main(args: &[String]) -> i32 {
         let r = match Sx::parse(t) {
             Ok(x) => match leg {
                 "calc" => calc(&x),
-                "fs" => fs_case(&x),
+                "fs" => match &contained {
+                    Ok(()) => fs_case(&x),
+                    Err(e) => Sx::L(vec![Sx::sym("env_unsupported"), Sx::B(e.clone().into_bytes())]),
+                },
                 _ => Sx::L(vec![Sx::sym("unknown_leg")]),
             },
             Err(e) => Sx::L(vec![Sx::sym("harness_parse_error"), Sx::B(e.into_bytes())]),
